@@ -501,7 +501,8 @@ def solve_sat(
             blocking = [(-v if vals[v] == 1 else v) for v in range(1, n_vars + 1) if vals[v] != UNDEF]
             clause_idx = len(clauses) + len(learned)
             learned.append(blocking)
-            lbd_scores.append(n_vars)
+            # LBD 0 = never deleted by reduce_db: a blocking clause is part of the problem, not a lemma
+            lbd_scores.append(0)
 
             unassign_to(0)
             dec_level = 0
